@@ -64,6 +64,12 @@ func (p *Pool[K, V]) Close() (err error) {
 	var eg errs.Group
 	for ent := p.order.head; ent != nil; ent = ent.global.next {
 		eg.Add(p.closeEntry(ent))
+
+		// the lists are dropped wholesale below: mark the entry unlinked so
+		// that an expiration callback that already fired does not unlink it
+		// from lists created after Close.
+		ent.global.removed = true
+		ent.local.removed = true
 	}
 
 	p.entries = make(map[K]*list[K, V])
